@@ -52,7 +52,7 @@ def rule_routing(repo, rep):
   n = 0
   for c in repo.estimators():
     for name, f in methods_of(repo, c, DATA_METHODS):
-      args = c06.data_args(f)
+      args = c06.data_args(f, labels=False)
       if not args:
         continue
       dom = RouteDomain()
@@ -329,7 +329,7 @@ def rule_wrapped(repo, rep):
 
 
 def check(repo, rep, tier):
-  c06.rule_taint(repo, rep)
+  c06.rule_taint(repo, rep, labels=False)
   rule_routing(repo, rep)
   rule_check_preprocessor(repo, rep)
   rule_only_for_indicators(repo, rep)
